@@ -148,3 +148,37 @@ package kvcache
 //@   loop 1 invariant forall j int, v int :: 0 <= j && j <= rangeindex && v != seq && old(inseq(c.cells[j].sequences, v)) ==> c.cells[j].pos == old(c.cells[j].pos)
 //@   loop 1 invariant forall j int :: 0 <= j && j <= rangeindex && inseq(c.cells[j].sequences, seq) ==> seqRange.min <= j && j <= seqRange.max
 //@   loop 1 invariant forall j int :: 0 <= j && j < len(c.cells) ==> !fresh(c.cells[j].sequences)
+
+//@ extern func log/slog.Debug
+//@   modifies nothing
+//@ extern func ml.(Context).MaxGraphNodes
+//@   modifies nothing
+
+// moveCells (trusted: View/Copy row semantics of the backend, assumption A-rows): copies
+// the K/V rows [src, src+length) to [dst, dst+length) in order. c.ghost_dat[j] is the
+// identity of the row stored at location j.
+//@ extern func (*Causal).moveCells
+//@   requires 0 <= src && 0 <= dst && 0 <= length && dst + length <= src && src + length <= len(c.cells)
+//@   modifies c.ghost_dat[all]
+//@   ensures forall j int :: dst <= j && j < dst + length ==> c.ghost_dat[j] == old(c.ghost_dat[j-dst+src])
+//@   ensures forall j int :: j < dst || dst + length <= j ==> c.ghost_dat[j] == old(c.ghost_dat[j])
+
+// defrag: loops 1 (count layers), 2 (dst ascending), 3 (src descending), 4 (sequences), 5 (cells)
+//@ func (*Causal).defrag
+//@   requires len(c.cells) <= 2147483648 && !fresh(c.cells)
+//@   requires forall j int :: 0 <= j && j < len(c.cells) ==> !fresh(c.cells[j].sequences)
+//@   requires forall j int :: c.ghost_dat[j] == j
+//@   ensures forall j int, g int :: 0 <= j && j < len(c.cells) && g == c.ghost_dat[j] && len(c.cells[j].sequences) != 0 ==> 0 <= g && g < len(c.cells) && c.cells[j].pos == old(c.cells[g].pos) && c.cells[j].sequences == old(c.cells[g].sequences)
+//@   loop 2 invariant 0 <= dst && -1 <= src && src < len(c.cells) && dst <= src + 1 && 0 <= pendingLen
+//@   loop 2 invariant pendingLen > 0 ==> 0 <= pendingDst && pendingDst + pendingLen <= dst && pendingDst + pendingLen <= src && src <= pendingSrc && pendingSrc + pendingLen <= len(c.cells)
+//@   loop 2 invariant forall j int :: pendingLen == 0 || j >= pendingDst ==> c.ghost_dat[j] == j
+//@   loop 2 invariant forall j int, g int :: 0 <= j && j < dst && (pendingLen == 0 || j < pendingDst || j >= pendingDst + pendingLen) && g == c.ghost_dat[j] && len(c.cells[j].sequences) != 0 ==> 0 <= g && g < len(c.cells) && c.cells[j].pos == old(c.cells[g].pos) && c.cells[j].sequences == old(c.cells[g].sequences)
+//@   loop 2 invariant forall j int :: dst <= j && j <= src ==> (j == src && len(c.cells[j].sequences) == 0) || (c.cells[j].pos == old(c.cells[j].pos) && c.cells[j].sequences == old(c.cells[j].sequences))
+//@   loop 2 invariant forall j int :: pendingDst <= j && j < pendingDst + pendingLen ==> len(c.cells[j].sequences) != 0 && c.cells[j].pos == old(c.cells[j-pendingDst+pendingSrc].pos) && c.cells[j].sequences == old(c.cells[j-pendingDst+pendingSrc].sequences)
+//@   loop 2 invariant forall j int :: src < j && j < len(c.cells) ==> len(c.cells[j].sequences) == 0
+//@   loop 3 invariant dst <= src && src < len(c.cells) && (pendingLen > 0 ==> src <= pendingSrc)
+//@   loop 3 invariant forall j int :: src < j && j < len(c.cells) ==> len(c.cells[j].sequences) == 0
+//@   assert-at call Close #2 : forall j int, g int :: 0 <= j && j < len(c.cells) && g == c.ghost_dat[j] && len(c.cells[j].sequences) != 0 ==> 0 <= g && g < len(c.cells) && c.cells[j].pos == old(c.cells[g].pos) && c.cells[j].sequences == old(c.cells[g].sequences)
+//@   loop 4 invariant forall j int, g int :: 0 <= j && j < len(c.cells) && g == c.ghost_dat[j] && len(c.cells[j].sequences) != 0 ==> 0 <= g && g < len(c.cells) && c.cells[j].pos == old(c.cells[g].pos) && c.cells[j].sequences == old(c.cells[g].sequences)
+//@   loop 5 invariant forall j int, g int :: 0 <= j && j < len(c.cells) && g == c.ghost_dat[j] && len(c.cells[j].sequences) != 0 ==> 0 <= g && g < len(c.cells) && c.cells[j].pos == old(c.cells[g].pos) && c.cells[j].sequences == old(c.cells[g].sequences)
+//@   loop 3 invariant forall j int :: dst <= j && j <= src ==> (j == src && len(c.cells[j].sequences) == 0) || (c.cells[j].pos == old(c.cells[j].pos) && c.cells[j].sequences == old(c.cells[j].sequences))
